@@ -951,8 +951,22 @@ fn c09(cfg: &SCfg, e: &Exec, f: &SFacts, vs: &mut Vec<Violation>, nt: &mut bool)
                 }
             }
         }
-    } else if f.stream_end.is_none() && f.stream_dropped.is_none() {
-        v(vs, "C09-execute-not-stopped", cfg, format!("transport failed during {want} but execute() kept going"));
+    } else {
+        if f.stream_end.is_none() && f.stream_dropped.is_none() {
+            v(vs, "C09-execute-not-stopped", cfg, format!("transport failed during {want} but execute() kept going"));
+        }
+        // execute() is the one that stops serving: nothing is read, let alone offered, after the
+        // failure (it may end in the poll that hit the failure or in the next one, not later)
+        for i in f.inst.values() {
+            if i.handed > fidx {
+                v(
+                    vs,
+                    "C09-served-after-failure",
+                    cfg,
+                    format!("transport failed during {want}, yet execute() went on to read request id {} from it", i.id),
+                );
+            }
+        }
     }
     // serving stopped and handlers aborted once the channel is dropped
     let q1idx = f.q1.as_ref().map(|q| q.0).unwrap_or(usize::MAX);
@@ -1590,6 +1604,17 @@ pub fn configs(prop: SProp, tier: Tier) -> Vec<SCfg> {
                                 }
                                 let reqs: Vec<ReqCfg> = pol.iter().enumerate().map(|(i, f)| ReqCfg::simple(i as u64, *f)).collect();
                                 out.push(base(reqs.clone(), Some(l), rb, *fl, *cap, alpha));
+                                // the excess request's own deadline has already passed when it
+                                // is read: it is still refused, with its one error response
+                                // (seeded change C12g let the refusal fall through a "request
+                                // has expired, send nothing" filter)
+                                if n >= 2 && n <= 3 && rb == 1 {
+                                    let mut rs = reqs.clone();
+                                    rs[n - 1].deadline_ms = 0;
+                                    out.push(base(rs.clone(), Some(l), rb, *fl, *cap, alpha));
+                                    rs[n - 1].deadline_ms = -1000;
+                                    out.push(base(rs, Some(l), rb, *fl, *cap, alpha));
+                                }
                                 // the same limit configured on the listener rather than on the
                                 // channel (seeded change C12f: the listener adaptor silently
                                 // raised a limit of 0 to 1)
